@@ -350,6 +350,10 @@ func (l *lexer) acceptRun(ttype int, valid string) bool {
 
 func (l *lexer) acceptString() bool {
 	begin := l.next()
+	if begin == eof {
+		// nothing left, an empty string token here would be accepted forever
+		return false
+	}
 	isDblQuote := begin == char_doublequote
 	isSglQuote := begin == char_singlequote
 	isSpaceDelim := !isSglQuote && !isDblQuote
